@@ -597,7 +597,15 @@ def rule_kpm_wiring(rep: Report, repo: Repo):
     rets = [n for n in own_nodes(kp) if isinstance(n, ast.Return)]
     if len(rets) != 1:
         raise AnalysisError(R, "KPM closure: expected one return")
-    rv = resolved(rets[0].value, env_at(rets[0], kp, keep_params=True))
+    rv0 = rets[0].value
+    if isinstance(rv0, ast.Call) and call_name(rv0) == "np.vstack" and len(rv0.args) == 1 and isinstance(rv0.args[0], ast.Name):
+        # the rows collected by an appending loop: the same thing as the comprehension
+        from .sem import loop_as_comprehension
+        lc = loop_as_comprehension(kp, rv0.args[0].id)
+        if lc is not None:
+            pre = {k_: v_ for k_, v_ in env_at(rets[0], kp, keep_params=True).items() if k_ != rv0.args[0].id}
+            rv0 = ast.Call(func=rv0.func, args=[resolved(lc, pre)], keywords=[])
+    rv = resolved(rv0, env_at(rets[0], kp, keep_params=True)) if rv0 is rets[0].value else rv0
     rv = resolved(rv, env_k)
     ok = False
     detail = norm(rv)[:200]
@@ -1227,20 +1235,67 @@ def rule_kpm_numerics(rep: Report, repo: Repo):
         and isinstance(warn_ifs[0].body[-1], ast.Break)
     rep.check(ok2, R, "kpm::greens_function iterates until the residual is below atol or warns (RuntimeWarning) at max_moments",
               f"loop while `{norm(lp.test)}`", loc(g))
-    # coefficients
-    coef_names = [n for n, v in stores.items() if any(isinstance(x, ast.Call) and call_name(x) == "np.sin" for x in ast.walk(v[0].value))]
-    if len(coef_names) != 1:
-        raise AnalysisError(R, "kpm.greens_function: coefficient array not found")
-    COEF = coef_names[0]
-    ctxt = rtext(stores[COEF][0].value, env_at(stores[COEF][0], g))
-    aug = [norm(n) for n in ast.walk(lp) if isinstance(n, ast.AugAssign)]
+    # coefficients: the array zipped with the Chebyshev vectors in the solution sum.  Its value is computed by straight-line
+    # evaluation of the statements that build it (in the loop body, or in a module-level helper it is obtained from)
     from .scalar import same as _same
-    eq = _same(ctxt, "-2 / np.sqrt(1 - energy ** 2) * np.sin(np.arange(num_moments) * np.arccos(energy))")
+    from .straight import run as _run
+    sol0 = stores.get(SOL, [])
+    COEF = None
+    if len(sol0) == 1:
+        sv = resolved(sol0[0].value, {k_: v_ for k_, v_ in env_at(sol0[0], g).items() if not (isinstance(v_, ast.Call) and call_name(v_) != "kpm_vectors")})
+        for n_ in ast.walk(sv):
+            if isinstance(n_, ast.Call) and call_name(n_) == "zip" and len(n_.args) == 2:
+                for a_, b_ in ((n_.args[0], n_.args[1]), (n_.args[1], n_.args[0])):
+                    if isinstance(b_, ast.Call) and call_name(b_) == "kpm_vectors" and isinstance(a_, ast.Name):
+                        COEF = a_.id
+    if COEF is None or COEF not in stores:
+        raise AnalysisError(R, "kpm.greens_function: coefficient array (zipped with kpm_vectors in the solution sum) not found")
+    cdef = stores[COEF][0]
+    helper = None
+    if isinstance(cdef.value, ast.Call) and isinstance(cdef.value.func, ast.Name):
+        helper = next((n_ for n_ in repo.trees["kpm"].body if isinstance(n_, ast.FunctionDef) and n_.name == cdef.value.func.id), None)
+    if helper is not None:
+        from .sem import bind_args as _bind
+        b_ = _bind(helper, cdef.value)
+        if b_ is None:
+            raise AnalysisError(R, f"kpm.greens_function: call `{norm(cdef.value)[:60]}` cannot be bound")
+        cval = _run(helper, lambda n_: None, R, env0=b_)
+    else:
+        upto = lp.body.index(sol0[0])
+        prog = [s_ for s_ in lp.body[:upto] if not (isinstance(s_, ast.If) and any(isinstance(x, ast.Break) for x in ast.walk(s_)))]
+        synth = ast.FunctionDef(name="coefficients", args=ast.arguments(posonlyargs=[], args=[], kwonlyargs=[], kw_defaults=[], defaults=[]),
+                                body=prog + [ast.Return(value=ast.Name(id=COEF, ctx=ast.Load()))], decorator_list=[])
+        cval = _run(synth, lambda n_: None, R)
+    # expected:  halve_first(B) * jackson_kernel(num_moments)  or  halve_first(B * jackson_kernel(num_moments)),
+    # B = -2 / sqrt(1 - E^2) * sin(n arccos E) up to algebra
+    BASE = "-2 / np.sqrt(1 - energy ** 2) * np.sin(np.arange(num_moments) * np.arccos(energy))"
+    JK = "jackson_kernel(num_moments)"
+
+    def strip_jackson(e):
+        if isinstance(e, ast.BinOp) and isinstance(e.op, ast.Mult):
+            if norm(e.right) == JK:
+                return e.left, True
+            if norm(e.left) == JK:
+                return e.right, True
+        return e, False
+
+    def strip_halving(e):
+        if isinstance(e, ast.Call) and call_name(e) == "_setitem" and norm(e.args[1]) == "0":
+            inner, new0 = e.args[0], e.args[2]
+            first = norm(ast.Subscript(value=inner, slice=ast.Constant(value=0), ctx=ast.Load()))
+            if norm(new0) in (f"{first} / 2", f"{first} * 0.5", f"0.5 * {first}", f"{first} / 2.0"):
+                return inner, True
+        return e, False
+    e1_, j1 = strip_jackson(cval)
+    e2_, h_ = strip_halving(e1_)
+    e3_, j2 = strip_jackson(e2_)
+    eq = _same(e3_, BASE)
+    ctxt = norm(cval)
     if eq is None:
-        raise AnalysisError(R, f"kpm.greens_function: coefficient formula `{ctxt[:90]}` is outside the scalar language of sv/scalar.py")
-    ok = eq and f"{COEF}[0] /= 2" in aug and f"{COEF} *= jackson_kernel(num_moments)" in aug
+        raise AnalysisError(R, f"kpm.greens_function: coefficient formula `{norm(e3_)[:90]}` is outside the scalar language of sv/scalar.py")
+    ok = bool(eq) and h_ and (j1 != j2)
     rep.check(ok, R, "kpm::greens_function Chebyshev coefficients of 1/(E - x): -2 sin(n arccos E)/sqrt(1 - E^2), halved at n = 0, Jackson-damped",
-              f"{ctxt[:100]}; " + "; ".join(aug), loc(g))
+              f"{ctxt[:160]}", loc(g))
     sol = stores.get(SOL, [])
     stxt = rtext(sol[0].value, env_at(sol[0], g, opaque=(COEF,))) if len(sol) == 1 else ""
     ok = stxt in (f"sum((_v1 * _v0 for _v0, _v1 in zip({COEF}, kpm_vectors(hamiltonian, vector))))",
